@@ -55,6 +55,7 @@ func init() {
 	}
 	executors["silence"] = execSilence
 	executors["silencegarble"] = execSilenceGarble
+	executors["silencepartial"] = execSilencePartial
 }
 
 // ------------------------------------------------------------ observed silence
@@ -205,6 +206,59 @@ func execSilenceGarble(in []string) string {
 	return "ok"
 }
 
+// execSilencePartial: in = rate. The first reply arrives late and incomplete:
+// its header and one more byte reach the client shortly before the request
+// deadline, the rest never comes, so the call ends in a timeout. Those bytes
+// were received: the next request must still wait t3.5 after them.
+func execSilencePartial(in []string) string {
+	rate := atoi(in[0])
+	_, t35 := modbus.VerifSerialTimings(uint(rate))
+	timeout := 120 * time.Millisecond
+	c := sconn.New(false)
+	var mu sync.Mutex
+	var arrive []time.Time
+	var partialAt time.Time
+	c.OnWrite = func(c *sconn.Conn, b []byte) {
+		now := time.Now()
+		mu.Lock()
+		arrive = append(arrive, now)
+		k := len(arrive)
+		mu.Unlock()
+		if k == 1 {
+			go func() {
+				time.Sleep(timeout - 12*time.Millisecond)
+				mu.Lock()
+				partialAt = time.Now()
+				mu.Unlock()
+				c.Feed([]byte{b[0], b[1], 2, 0x12}) // header + one data byte of a 7-byte reply
+			}()
+		} else if k == 2 {
+			c.Feed(rtuFrame(b[0], b[1], []byte{2, 0x12, 0x34}))
+		}
+	}
+	mc, err := modbus.VerifNewClientOnConn(&modbus.ClientConfiguration{
+		URL: "rtuovertcp://x", Timeout: timeout, Speed: uint(rate), Logger: quiet}, c)
+	if err != nil {
+		return "err:client"
+	}
+	mc.SetUnitId(1)
+	if _, err := mc.ReadRegisters(0, 1, modbus.HOLDING_REGISTER); err != modbus.ErrRequestTimedOut {
+		return "err:first:" + errClass(err)
+	}
+	// the unread bytes of the cut reply are still queued: the second exchange may fail,
+	// only the instant of its transmission matters here
+	mc.ReadRegisters(0, 1, modbus.HOLDING_REGISTER)
+	mu.Lock()
+	defer mu.Unlock()
+	if len(arrive) != 2 || partialAt.IsZero() {
+		return "err:script"
+	}
+	if gap := arrive[1].Sub(partialAt); gap < t35 {
+		return fmt.Sprintf("gap:%d:%d", int64(gap), int64(t35))
+	}
+	return "ok"
+}
+
 // ------------------------------------------------------------------ generators
 
 var c19Bauds = []int{
@@ -324,6 +378,12 @@ func scnSilence(o *Out, r *Rng, thorough bool) {
 		}
 	}
 	// rejected reply whose tail arrives during the flush (9600 / 14400 bps: t3.5 well above the flush window)
+	// late, incomplete reply cut by the deadline (low rates: t3.5 is 32 / 64 ms)
+	for _, out := range o.RunMany("silencepartial", []string{"1200", "600", "2400"}) {
+		if out != "ok" {
+			o.Stat("silencepartial:not-ok")
+		}
+	}
 	for _, out := range o.RunMany("silencegarble", []string{"9600", "14400", "4800"}) {
 		if out != "ok" {
 			o.Stat("silencegarble:not-ok")
